@@ -274,6 +274,17 @@ fn c16_configs(tier: Tier) -> Vec<TcpCfg> {
         c.mode = Mode::Concurrent;
         c.drops = 0;
     });
+    // a first burst beyond the receiver's room is accepted partially; with one packet lost the
+    // go-back-N retransmission overlaps what the receiver already holds while the reader lags
+    add(if tier == Tier::Thorough { "partial-overlap-mss4-rcv3-t5-D1" } else { "partial-overlap-mss4-rcv3-t4-D1" }, &|c| {
+        c.mtu = 44;
+        c.send_cap = 5;
+        c.recv_cap = 3;
+        c.c_chunks = vec![tier.pick(4, 5)];
+        c.reader = Pace::Late;
+        c.reader_buf = 2;
+        c.drops = 1;
+    });
     // the accepting side sends first, into a client whose receive cap is below the flight
     add(if tier == Tier::Thorough { "srvfirst-mss1-snd4-rcv2-s4" } else { "srvfirst-mss1-snd2-rcv1-s2" }, &|c| {
         c.send_cap = tier.pick(2, 4);
